@@ -105,7 +105,7 @@ func main() {
 		pairs := strings.Split(*pluginprefix, ",")
 		for _, pair := range pairs {
 			ss := strings.Split(pair, "=")
-			if len(ss) != 2 {
+			if len(ss) != 2 || len(ss[1]) == 0 {
 				log.Fatalf("invalid syntax for plugin prefix <%s>", pair)
 			}
 			overridePrefixes[ss[0]] = ss[1]
